@@ -77,6 +77,11 @@ fn lens_around(rng: &mut Rng, thresholds: &[usize]) -> usize {
     .min(20_000)
 }
 
+fn maybe_huge(rng: &mut Rng, len: usize) -> usize {
+    // occasionally an item of many hundred chunks (fills the queue to the (de)serialisation thread)
+    if rng.chance(4) { 6_000 + rng.usize_below(14_000) } else { len }
+}
+
 pub fn run_one(run: u64, seed: u64) -> RunOut {
     let mut rng = Rng::new(seed);
     let cfg_a = rch_cfg(&mut rng);
@@ -107,7 +112,9 @@ pub fn run_one(run: u64, seed: u64) -> RunOut {
             } else {
                 Fail::None
             };
-            v.push(Plan { id: ((s as u64 + 1) << 32) | (i as u64 + 1), len: lens_around(&mut rng, &thresholds), fail });
+            let len = lens_around(&mut rng, &thresholds);
+            let len = maybe_huge(&mut rng, len);
+            v.push(Plan { id: ((s as u64 + 1) << 32) | (i as u64 + 1), len, fail });
         }
         plans.push(v);
     }
@@ -168,9 +175,22 @@ pub fn run_one(run: u64, seed: u64) -> RunOut {
                 tx_ab.set_max_item_size(sender_limit);
                 rx_ab.set_max_item_size(recv_limit);
                 let recvs2 = recvs.clone();
+                let mut crng = rng.fork(31);
+                let cancel_recv = crng.chance(50);
                 tasks.push(crate::sched::spawn(async move {
                     loop {
-                        let r = rx_ab.recv().await;
+                        // receiving is resumable: a recv future that is dropped between polls must lose nothing
+                        let r = if cancel_recv && crng.chance(60) {
+                            match CancelAt::new(rx_ab.recv(), 1 + crng.below(12) as u32).await {
+                                Some(r) => r,
+                                None => {
+                                    crate::simnet::bump_progress();
+                                    continue;
+                                }
+                            }
+                        } else {
+                            rx_ab.recv().await
+                        };
                         crate::simnet::bump_progress();
                         match r {
                             Ok(Some(Ship::Item(item))) => recvs2.lock().unwrap().push(RecvEv::Item(item)),
